@@ -1,5 +1,6 @@
 import PydraModel.DriverUtil
 import PydraModel.Template.Model
+import PydraModel.Template.ArgvView
 import PydraModel.Gen.TemplateRegexes
 open Lean PydraModel PydraModel.Template PydraModel.DriverUtil
 
@@ -108,6 +109,42 @@ partial def argValOfJson (j : Json) : Except String ArgVal := do
   if let .ok _ := j.getObjVal? "unset" then return .unset
   throw s!"bad-value {j.compress}"
 
+/-- the value the Argv engine's model gets for a field: the given one, else the field's default; `none` = a shape the
+    Argv value type cannot hold (lists of tuples) or a float default -/
+def scalarOfArg : ArgVal → Option Argv.Scalar
+  | .atom s => some (.str s)
+  | .bool b => some (.bool b)
+  | _ => none
+
+def toArgvValue (jobDir : Str) (f : Field) (given : Option ArgVal) : Option Argv.Value :=
+  match given with
+  | some (.atom s) => some (.one (.str s))
+  | some (.bool b) => some (.one (.bool b))
+  | some (.seq xs) => some (.many (xs.map Argv.Scalar.str))
+  | some (.many xs) => (xs.mapM scalarOfArg).map Argv.Value.many
+  | some .template =>
+    f.pathTemplate.bind (fun t => if t.contains '{' then none else some (.one (.path (jobDir ++ '/' :: t))))
+  | some .unset => some .unset
+  | none =>
+    match f.default with
+    | .noDefault =>
+      if f.kind == .outarg then
+        f.pathTemplate.bind (fun t => if t.contains '{' then none else some (.one (.path (jobDir ++ '/' :: t))))
+      else none
+    | .emptyList => some (.many [])
+    | .lit (.sc (.bool b)) => some (.one (.bool b))
+    | .lit (.sc .none) => some .unset
+    | .lit (.sc s) => (litStr s).map (fun t => .one (.str t))
+    | .lit (.tuple xs) => (xs.mapM litStr).map (fun ys => .many (ys.map Argv.Scalar.str))
+
+def argvEngineErr : Argv.Err → String
+  | .noClosingQuote => "ValueError"
+  | .noEscapedChar => "ValueError"
+  | .overlap => "ValueError"
+  | .dupPosition => "Exception"
+  | .noSlot => "IndexError"
+  | .format => "KeyError"
+
 def handle (j : Json) : Json :=
   let r : Except String Json := do
     let op ← getStr j "op"
@@ -131,9 +168,18 @@ def handle (j : Json) : Json :=
       match define genTable genKeywords genReserved tokens with
       | .error e => return Json.mkObj [("err", errTag e), ("why", errDetail e)]
       | .ok d =>
+        -- the same definition through the Argv engine's model (what theorem C25_argv is about)
+        let args := d.fields.filter isArgument
+        let engine : Json :=
+          match args.mapM (fun f => toArgvValue job f (lookupGiven vals f.name)) with
+          | none => Json.null
+          | some vs =>
+            match Argv.runDef d.exe (toArgvFields d) vs [] with
+            | .ok argv => Json.arr (argv.map js).toArray
+            | .error e => Json.mkObj [("err", argvEngineErr e)]
         match commandArgs job d vals with
-        | .error e => return Json.mkObj [("err", errTag e), ("why", errDetail e)]
-        | .ok argv => return Json.mkObj [("argv", Json.arr (argv.map js).toArray)]
+        | .error e => return Json.mkObj [("err", errTag e), ("why", errDetail e), ("engine", engine)]
+        | .ok argv => return Json.mkObj [("argv", Json.arr (argv.map js).toArray), ("engine", engine)]
     | _ => throw s!"bad-op {op}"
   match r with
   | .ok v => v
